@@ -8,6 +8,8 @@ R20.4 lint of the shipped interpolation tables (data artefact, no code run): lay
 
 The path analyses of R20.2 / R20.3 read a conditional expression as the if / else it abbreviates (`_ifexp_as_branch`), and a flag / test that a
 path has already branched on keeps its outcome on that path (`_PathEx`): `x = a if t else b` twice is two paths, like one `if t:` block.
+A look-up `D[key](x)` in a fixed class-level table of callables is the dispatch on `key` it abbreviates (`_table_dispatch`); an integrand
+`functools.partial(f, a)` is `lambda y: f(a, y)` (`_partial_as_lambda`).
 """
 from __future__ import annotations
 
@@ -117,6 +119,21 @@ def _complex_parts(v: ast.AST, cx: Ctx):
     return (re_[0], im_[0]) if len(re_) == 1 and len(im_) == 1 else None
 
 
+def _partial_as_lambda(e: ast.AST, avoid: set = frozenset()):
+    """`functools.partial(f, a, .., k=v)` handed to a quadrature routine that calls its integrand with the one integration variable is
+    `lambda y: f(a, .., y, k=v)`; any other expression is returned as it is"""
+    if not (isinstance(e, ast.Call) and (dotted(e.func) or "") in ("partial", "functools.partial") and e.args
+            and not any(isinstance(a_, ast.Starred) for a_ in e.args) and all(k_.arg for k_ in e.keywords)):
+        return e
+    taken = {x.id for x in ast.walk(e) if isinstance(x, ast.Name)} | set(avoid)
+    y = "y__"
+    while y in taken:
+        y += "_"
+    body = ast.Call(func=e.args[0], args=list(e.args[1:]) + [ast.Name(id=y, ctx=ast.Load())], keywords=list(e.keywords))
+    lam = ast.Lambda(args=ast.arguments(posonlyargs=[], args=[ast.arg(arg=y)], kwonlyargs=[], kw_defaults=[], defaults=[]), body=body)
+    return ast.fix_missing_locations(ast.copy_location(lam, e))
+
+
 def _wrapper_structure(S, f_impl, cls: str) -> dict:
     """structure of the nested per-point function of _functionImplementation (the one that calls _integrator), by role:
     (branch, part) -> sorted list of (integrand, lower limit, upper limit) when the part is a plain sum of _integrator(...) calls,
@@ -167,7 +184,7 @@ def _wrapper_structure(S, f_impl, cls: str) -> dict:
             if not (isinstance(t, ast.Call) and dotted(t.func) == "_integrator" and len(ip) == 3):
                 return "0" if eqx(r, "0.0") else n(r)
             f_, a_, b_ = (kwarg(t, ip[i], i) for i in range(3))
-            lam = cx.resolve(f_, keep_calls=KEEP) if f_ is not None else None
+            lam = _partial_as_lambda(cx.resolve(f_, keep_calls=KEEP), avoid={XW}) if f_ is not None else None
             callee = "?"
             if isinstance(lam, ast.Lambda) and len(lam.args.args) == 1 and isinstance(lam.body, ast.Call):
                 Y = lam.args.args[0].arg
@@ -346,6 +363,142 @@ def _ifexp_as_branch(fi, limit: int = 64):
     return FuncInfo(fi.module, fi.qual, node, fi.cls, fi.parent)
 
 
+def _class_table(S, fi, e: ast.AST):
+    """[(key, value)] of the class-level dict display `self.NAME` / `cls.NAME` / `Class.NAME` refers to, when it is a fixed table: defined once in
+    the class body (of the class of fi or a base) as a display with plain, pairwise different keys, and never re-bound or written to anywhere in
+    the package; else None"""
+    if not (isinstance(e, ast.Attribute) and isinstance(e.value, ast.Name) and fi.cls and e.value.id in ("self", "cls", fi.cls)):
+        return None
+    name = e.attr
+    table = None
+    for ci in S.mro(f"{fi.module}:{fi.cls}"):
+        if name in ci.consts:
+            defs = [st for st in ci.node.body if (isinstance(st, ast.Assign) and any(isinstance(t, ast.Name) and t.id == name for t in st.targets))
+                    or (isinstance(st, ast.AnnAssign) and isinstance(st.target, ast.Name) and st.target.id == name)]
+            if len(defs) != 1 or name in ci.methods:
+                return None
+            table = ci.consts[name]
+            break
+        if name in ci.methods:
+            return None
+    if not isinstance(table, ast.Dict) or not table.keys or any(k is None for k in table.keys):
+        return None
+
+    def plain(k) -> bool:
+        return isinstance(k, (ast.Constant, ast.Name)) or (isinstance(k, ast.Attribute) and plain(k.value))
+    if not all(plain(k) for k in table.keys) or len({ast.dump(k) for k in table.keys}) != len(table.keys):
+        return None
+    if not all(isinstance(v, (ast.Name, ast.Attribute, ast.Lambda)) for v in table.values):
+        return None
+    # a table that some code re-binds or mutates, or that another class of the package defines as well (an override seen through `self`), is not
+    # a fixed dispatch
+    if sum(name in c_.consts or name in c_.methods for m in S.modules.values() for c_ in m.classes.values()) != 1:
+        return None
+    for m in S.modules.values():
+        for x in ast.walk(m.tree):
+            if isinstance(x, ast.Attribute) and x.attr == name:
+                if isinstance(x.ctx, (ast.Store, ast.Del)):
+                    return None
+            elif isinstance(x, ast.Subscript) and isinstance(x.ctx, (ast.Store, ast.Del)) and isinstance(x.value, ast.Attribute) and x.value.attr == name:
+                return None
+            elif isinstance(x, ast.Call) and isinstance(x.func, ast.Attribute) and isinstance(x.func.value, ast.Attribute) and x.func.value.attr == name \
+                    and x.func.attr in ("update", "pop", "popitem", "clear", "setdefault", "__setitem__", "__delitem__"):
+                return None
+    return list(zip(table.keys, table.values))
+
+
+def _table_dispatch(S, fi):
+    """copy of a function in which a look-up in a fixed class-level table of callables is the dispatch it abbreviates:
+        D[key]           ->  v1 if key == k1 else (v2 if key == k2 else D[key])          (likewise D.get(key) / D.get(key, default))
+        if key in D: A   ->  if key == k1: A  elif key == k2: A  [else: B]               (`not in`: arms exchanged)
+    one path per key, each applying that key's callable (the path extractor keeps the outcome of `key == k` on a path, so inside the arm of k1 the
+    look-up is v1).  The key must be a plain name / attribute path (evaluating it twice changes nothing); fi itself when there is no such look-up"""
+    import copy
+    from ..core import FuncInfo
+
+    def plain(k) -> bool:
+        return isinstance(k, ast.Name) or (isinstance(k, ast.Attribute) and plain(k.value))
+    changed = [False]
+
+    def eq(key, k):
+        return ast.Compare(left=copy.deepcopy(key), ops=[ast.Eq()], comparators=[copy.deepcopy(k)])
+
+    def chain(key, table, fallback):
+        out = fallback
+        for k, v in reversed(table):
+            out = ast.IfExp(test=eq(key, k), body=copy.deepcopy(v), orelse=out)
+        return out
+
+    class Lookups(ast.NodeTransformer):
+        def visit_Subscript(self, x):
+            self.generic_visit(x)
+            t = _class_table(S, fi, x.value) if isinstance(x.ctx, ast.Load) else None
+            if t is not None and plain(x.slice):
+                changed[0] = True
+                return ast.copy_location(chain(x.slice, t, copy.deepcopy(x)), x)
+            return x
+
+        def visit_Call(self, x):
+            self.generic_visit(x)
+            if isinstance(x.func, ast.Attribute) and x.func.attr == "get" and 1 <= len(x.args) <= 2 and not x.keywords and plain(x.args[0]):
+                t = _class_table(S, fi, x.func.value)
+                if t is not None:
+                    changed[0] = True
+                    return ast.copy_location(chain(x.args[0], t, x.args[1] if len(x.args) == 2 else ast.Constant(value=None)), x)
+            return x
+
+        def visit_Lambda(self, x):
+            return x
+
+    def member_test(t):
+        """(key, table, polarity) of a test `key in D` / `key not in D` / `not ...`"""
+        pol = True
+        while isinstance(t, ast.UnaryOp) and isinstance(t.op, ast.Not):
+            t, pol = t.operand, not pol
+        if isinstance(t, ast.Compare) and len(t.ops) == 1 and isinstance(t.ops[0], (ast.In, ast.NotIn)) and plain(t.left):
+            d = t.comparators[0]
+            if isinstance(d, ast.Call) and isinstance(d.func, ast.Attribute) and d.func.attr == "keys" and not d.args and not d.keywords:
+                d = d.func.value
+            tb = _class_table(S, fi, d)
+            if tb is not None:
+                return t.left, tb, pol == isinstance(t.ops[0], ast.In)
+        return None
+
+    def block(stmts):
+        out = []
+        for st in stmts:
+            if isinstance(st, (ast.FunctionDef, ast.AsyncFunctionDef, ast.ClassDef)):
+                out.append(st)
+                continue
+            for fld in ("body", "orelse", "finalbody"):
+                b = getattr(st, fld, None)
+                if isinstance(b, list) and b and isinstance(b[0], ast.stmt):
+                    setattr(st, fld, block(b))
+            for h in getattr(st, "handlers", []) or []:
+                h.body = block(h.body)
+            mt = member_test(st.test) if isinstance(st, ast.If) else None
+            if mt is not None:
+                key, tb, pol = mt
+                inside, outside = (st.body, st.orelse) if pol else (st.orelse, st.body)
+                if inside:
+                    new = list(outside)
+                    for k, _ in reversed(tb):
+                        new = [ast.copy_location(ast.If(test=eq(key, k), body=copy.deepcopy(inside), orelse=new), st)]
+                    changed[0] = True
+                    out += new
+                    continue
+            out.append(st)
+        return out
+
+    node = copy.deepcopy(fi.node)
+    node.body = block(node.body)
+    node = Lookups().visit(node)
+    if not changed[0]:
+        return fi
+    ast.fix_missing_locations(node)
+    return FuncInfo(fi.module, fi.qual, node, fi.cls, fi.parent)
+
+
 _TEXT_NAMED = ("is_", "cmp_", "cond", "isscalar_", "idx_")
 
 
@@ -404,7 +557,7 @@ def r20_3(chk: Check):
     # term level: the value returned on every path, as a function of the parameters (bosons, fermions, temperature); names of
     # locals, temporaries, the order of the accumulation and the shape of the control flow do not enter
     exk = _PathEx(S, positive={"temperature"}, keep_regularisers=True)
-    ps = [p for p in exk.paths(_axis_by_keyword(_ifexp_as_branch(ft))) if p.raised is None]
+    ps = [p for p in exk.paths(_axis_by_keyword(_ifexp_as_branch(_table_dispatch(S, ft)))) if p.raised is None]
     vals = [p.value for p in ps]
     if not vals or not all(isinstance(v, sp.Basic) for v in vals):
         raise Undecided("potentialOneLoopThermal: a return value is not a term")
@@ -469,7 +622,7 @@ def r20_3(chk: Check):
     fo = S.func(f"{EP}.potentialOneLoop")
     chk.touch(fo.name)
     ex1 = _PathEx(S)
-    vals = [p.value for p in ex1.paths(_axis_by_keyword(_ifexp_as_branch(fo))) if p.raised is None]
+    vals = [p.value for p in ex1.paths(_axis_by_keyword(_ifexp_as_branch(_table_dispatch(S, fo)))) if p.raised is None]
     if not vals or not all(isinstance(v_, sp.Basic) for v_ in vals):
         raise Undecided("potentialOneLoop: a return value is not a term")
     b_, f_ = [ex1.sym(f"bosons[{i}]") for i in range(4)], [ex1.sym(f"fermions[{i}]") for i in range(4)]
